@@ -2,6 +2,7 @@
 From Coq Require Import List String Sorted.
 From Tealer Require Import Syntax Parse Cfg Analysis Detect SubLemmas GraphWf SolverLemmas.
 Import ListNotations.
+Open Scope list_scope.
 
 (* the labels targeted by callsub instructions, and only those, are subroutines *)
 Theorem C05_subs_are_callsub_targets : forall p t, parse_teal p = Ok t ->
@@ -23,7 +24,7 @@ Proof. exact callers_exact. Qed.
 
 (* every callsub block has no successor (call is the last instruction) or exactly the block that follows it *)
 Theorem C05_return_point : forall p t c b, parse_teal p = Ok t -> tblock t c = Some b -> is_callsub_block t b = true ->
-  (b_next b = [] /\ S (last (b_ins b) 0) = length (t_prog t)) \/
+  (b_next b = [] /\ S (last (b_ins b) 0) = List.length (t_prog t)) \/
   (b_next b = [S c] /\ exists rb, tblock t (S c) = Some rb /\ hd_error (b_ins rb) = Some (S (last (b_ins b) 0))).
 Proof. exact return_point. Qed.
 
